@@ -16,15 +16,30 @@
      - the block cut: a token stream laid out as blocks separated by empty lines is cut by the
        splitter at exactly those blocks (C01_block_cut);
      - documents: the whole event stream of a text without front matter laid out as printed
-       blocks (C01_events_roundtrip_partial, via C14_full_blocks and C01_block_cut).
-   C01_full_statement (documents printed with separators, no splitting hypothesis) is stated,
-   not proved.  The recipe level (analysis pass) is monitored on the implementation by
-   checks/c01.py on every run.
-   The printers (Model/Printer.v) are definitions of these statements, not models of Rust code. *)
+       blocks (C01_events_roundtrip_partial, via C14_full_blocks and C01_block_cut), and of the text
+       produced by the document printer [print_doc] (blocks; the newline ending each, `\n` or `\r\n`;
+       empty or comment-only lines before and between them; final newline or not) under the decidable printer-side
+       condition [doc_ok] alone (C01_events_roundtrip);
+     - recipes: the analysis model run on the bridged events of such a document returns, valid,
+       the denotation [denote] of the document (Model/Denote.v: tables, names, scaling kind and
+       lock, units, modifiers, `&` references resolved to the last earlier definition with the
+       back link recorded, intermediate references `&(..)` resolved to a step of the section or
+       to a closed section, step items/order/numbers, sections, text blocks), for the class
+       [adoc_ok] (C01_analyse_roundtrip); composed with the printer through ParseTotal.parse_model
+       = analyse . bridge . events (C01_parse_print_partial: the class excludes mode switches;
+       with INLINE_QUANTITIES step text is cut at the quantities the converter oracle finds);
+       the metadata map is the `>>` entries inserted in order (C01_metadata_roundtrip);
+     - front matter: a document printed behind `---` YAML `---` yields the YAML event with exactly
+       that text followed by the intended events, the same recipe (valid iff serde_yaml, an
+       oracle, accepts the text) and the oracle's mapping as metadata
+       (C01_frontmatter_events_roundtrip, C01_parse_print_frontmatter_partial, C01_metadata_frontmatter).
+   The printers (Model/Printer.v) and [denote] (Model/Denote.v) are definitions of these statements,
+   not models of Rust code. *)
 From CL Require Import Base.StrLemmas Model.Lexer Model.Parser Proofs.LexerProofs Model.Printer Proofs.RoundTrip
-  Proofs.RoundTripComp Proofs.RoundTripDoc.
+  Proofs.RoundTripComp Proofs.RoundTripDoc Proofs.RoundTripPrintDoc Model.Denote Model.EventBridge Proofs.RoundTripAnalysis.
 From CL Require Proofs.MetaIterProofs.
 From CL Require Gen.CharClass.
+From CL Require Model.Events Model.Analysis Model.MetaMap Proofs.ParseTotal.
 
 (* ------------------------------------------------------------------ (a) lexer *)
 
@@ -220,31 +235,143 @@ Theorem C01_events_roundtrip_partial :
 Proof. intros U cfg text d ts bl Hs. exact (events_layout cfg Hs U text d ts bl). Qed.
 Print Assumptions C01_events_roundtrip_partial.
 
-(* the full statement: the splitting hypothesis replaced by the printer of documents *)
-Fixpoint print_doc (d : list block) (sep : nat -> list ptok) (n : nat) : list ptok :=
-  match d with
-  | [] => []
-  | [b] => print_block b
-  | b :: r => print_block b ++ (KNewline, [10]) :: sep n ++ print_doc r sep (S n)
-  end.
-Definition is_step_block (b : block) : bool := match b with BkStep _ => true | _ => false end.
-(* separators: blank tokens and newlines; an empty or comment-only line between two step blocks *)
-Fixpoint seps_ok (d : list block) (sep : nat -> list ptok) (n : nat) : Prop :=
-  match d with
-  | b :: ((b2 :: _) as r) =>
-      forallb (fun t => blank_ok t || (tk_eqb (fst t) KNewline && shape_ok t)) (sep n) = true /\
-      (is_step_block b && is_step_block b2 = true -> kind_in KNewline (sep n) = true) /\
-      seps_ok r sep (S n)
-  | _ => True
-  end.
-Definition C01_full_statement : Prop :=
-  forall (U : N -> ucls) (cfg : pcfg) (d : list block) (sep : nat -> list ptok),
-    p_strict_escape cfg = false ->
-    Forall (fun b => block_ok cfg b = true /\ sec_trail_ok b) d -> seps_ok d sep 0 ->
-    parse_frontmatter cfg (unlex (print_doc d sep 0)) = None ->
-    adjacent_ok U (print_doc d sep 0) = true ->
-    exists evs, events U cfg (unlex (print_doc d sep 0)) = Done evs /\
-                map ev_proj evs = concat (map denote_block d).
+(* The document printer.  [print_doc d tp] (Model/Printer.v) spells the blocks of d in order, each ended by the
+   newline token [dt_nl tp n], preceded ([dt_lead]) and followed ([dt_sep tp n]) by any number of empty lines
+   (blanks, block and line comments, then a newline); with [dt_final tp = false] the text ends right after
+   the last block, without a newline.  [doc_ok U cfg d tp] is a boolean on the printer's
+   input: the current parser code (p_strict_escape off); the tokens keep their identity when concatenated
+   (adjacent_ok); no front matter ([fm_free]: not two `---` lines with only blanks before the first - a
+   line comment `---` is otherwise a legal empty line); every block well formed (block_ok, sec_trail_okb);
+   a `>>`/`=` block has no newline inside; no line of a step or text block is empty or starts with `>>`
+   or `=` ([mlines_ok]); the separators are empty lines ([eline_ok]); two multi-line blocks are separated
+   by at least one empty line ([sep_ok]).  Under it the event stream of the printed text is, spans
+   erased, exactly the intended one ([doc_events d] = the events of each block in order): no
+   diagnostic, nothing lost, nothing added. *)
+Theorem C01_events_roundtrip :
+  forall (U : N -> ucls) (cfg : pcfg) (d : list block) (tp : dtape),
+    doc_ok U cfg d tp = true ->
+    exists evs, events U cfg (print_doc d tp) = Done evs /\ map ev_proj evs = doc_events d.
+Proof. exact events_print_doc. Qed.
+Print Assumptions C01_events_roundtrip.
+
+(* a readable sufficient condition for the front-matter conjunct of doc_ok: no line of the text is `---` *)
+Theorem C01_no_fence_no_frontmatter :
+  forall (cfg : pcfg) (s : str), no_fence_line s = true -> fm_free cfg s = true.
+Proof. exact no_fence_fm_free. Qed.
+Print Assumptions C01_no_fence_no_frontmatter.
+
+(* ------------------------------------------------------------------ (g) recipes *)
+
+(* The analysis pass.  For every event stream whose projection is the intended stream of d (so in particular
+   the stream of C01_events_roundtrip), every case folding [ci], YAML oracle, converter oracles ([find_iq],
+   [unit_class]), source text and extension record x of the pass: the collector model with the current code
+   returns the recipe [denote ci d] and reports no error.  [adoc_ok] (Model/Denote.v, decidable given the
+   oracles) states the class: no `>> [..]` key while MODES is on (mode switches); with INLINE_QUANTITIES the
+   oracle for find_inline_quantity consumes text (it returns a strict suffix in the code; [iq_split] does not
+   run out of one unit of fuel per character); with ADVANCED_UNITS every timer quantity is a number
+   with a time unit; every `&(..)` is on an ingredient, without `@ - +`, and its target exists; every other
+   `&` component has an earlier definition of its name, no `+`, no note and no modifier the definition lacks
+   (each of these is an error diagnostic of the code, so outside "parses without errors"); fewer than
+   2^32 - 1 steps (the u32 step counter).  What [denote] says is in the header of Model/Denote.v. *)
+Theorem C01_analyse_roundtrip :
+  forall ci yaml_ok find_iq unit_class input (x : Analysis.aext) (cfg : pcfg) (d : list block) (evs : list pevent),
+    map ev_proj evs = doc_events d -> Forall (fun b => block_ok cfg b = true) d ->
+    adoc_ok ci find_iq unit_class x d = true ->
+    Analysis.analyse ci yaml_ok find_iq unit_class input x Analysis.cfgF (abstract_events evs)
+    = Done (Some (denote ci find_iq (Analysis.x_inline x) d), true).
+Proof. exact analyse_denote. Qed.
+Print Assumptions C01_analyse_roundtrip.
+
+(* What [denote] means by "the definition a `&` component refers to" ([find_def], used by [add_comp] and
+   [ref_ok]): the entry j is a definition whose folded name equals the folded name looked up, and no later
+   entry of the table is. *)
+Theorem C01_reference_target :
+  forall (ci : str -> str) (tbl : list Analysis.component) (name : str) (j : nat),
+    find_def ci tbl name = Some j <->
+    (exists def, nth_error tbl j = Some def /\ is_def def = true /\ str_eqb (ci name) (ci (Analysis.c_name def)) = true) /\
+    (forall k o, (j < k)%nat -> nth_error tbl k = Some o -> is_def o && str_eqb (ci name) (ci (Analysis.c_name o)) = false).
+Proof. exact find_def_spec. Qed.
+Print Assumptions C01_reference_target.
+
+(* Print, then parse: the whole pipeline model of CooklangParser::parse on the printed text returns the
+   denotation, valid.  Partial: the class [adoc_ok] above (front matter: section (h)). *)
+Theorem C01_parse_print_partial :
+  forall (U : N -> ucls) (cfg : pcfg) ci yaml_ok find_iq unit_class (x : Analysis.aext) (d : list block) (tp : dtape),
+    doc_ok U cfg d tp = true -> adoc_ok ci find_iq unit_class x d = true ->
+    ParseTotal.parse_model U cfg ci yaml_ok find_iq unit_class x (print_doc d tp)
+    = Done (Some (denote ci find_iq (Analysis.x_inline x) d), true).
+Proof. exact parse_print. Qed.
+Print Assumptions C01_parse_print_partial.
+
+(* ------------------------------------------------------------------ (h) front matter *)
+
+(* A document printed behind a YAML front matter: `---` (blanks) newline, the YAML text y, `---` (blanks)
+   newline, the document ([print_fm_doc]).  y is not interpreted by the parser (serde_yaml is an oracle of
+   the analysis pass): any text that is empty or ends with a newline and has no `---` line.  [fm_doc_ok]:
+   that, [body_ok] (= doc_ok without its front-matter conjunct) and no `>>` block (behind a front matter a
+   `>>` line is step text, the entries live in the YAML).  The event stream is the YAML event carrying
+   exactly y, then the intended events of the document. *)
+Theorem C01_frontmatter_events_roundtrip :
+  forall (U : N -> ucls) (cfg : pcfg) (y : str) (ft : fmtape) (d : list block) (tp : dtape),
+    fm_doc_ok U cfg y ft d tp = true ->
+    exists evs, events U cfg (print_fm_doc y ft d tp) = Done evs /\ map ev_proj evs = fm_doc_events y d.
+Proof. exact events_print_fm_doc. Qed.
+Print Assumptions C01_frontmatter_events_roundtrip.
+
+(* ... and the recipe: the same denotation; it is valid exactly when serde_yaml accepts y ([yaml_ok]) *)
+Theorem C01_parse_print_frontmatter_partial :
+  forall (U : N -> ucls) (cfg : pcfg) ci yaml_ok find_iq unit_class (x : Analysis.aext)
+         (y : str) (ft : fmtape) (d : list block) (tp : dtape),
+    fm_doc_ok U cfg y ft d tp = true -> adoc_ok ci find_iq unit_class x d = true ->
+    ParseTotal.parse_model U cfg ci yaml_ok find_iq unit_class x (print_fm_doc y ft d tp)
+    = Done (Some (denote ci find_iq (Analysis.x_inline x) d), yaml_ok y).
+Proof. exact parse_print_fm. Qed.
+Print Assumptions C01_parse_print_frontmatter_partial.
+
+(* ... and the metadata map is the mapping serde_yaml made of y (the oracle's answer [yaml y]) *)
+Theorem C01_metadata_frontmatter :
+  forall (U : N -> ucls) (cfg : pcfg) (Y : Type) (ystr : str -> Y) (yeqb : Y -> Y -> bool)
+         (yaml : str -> option (list (Y * Y))) (modes : bool) (y : str) (ft : fmtape) (d : list block) (tp : dtape) m,
+    fm_doc_ok U cfg y ft d tp = true -> yaml y = Some m ->
+    exists evs, events U cfg (print_fm_doc y ft d tp) = Done evs /\
+      MetaMap.metadata_of Y ystr yeqb yaml modes evs = Some m.
+Proof.
+  intros U cfg Y ystr yeqb yaml modes y ft d tp m Hd Hy. destruct (events_print_fm_doc U cfg y ft d tp Hd) as (evs & He & Hp).
+  exists evs. split; [exact He|]. apply (metadata_denote_fm Y ystr yeqb yaml modes y d evs m Hp); [|exact Hy].
+  unfold fm_doc_ok in Hd. apply andb_true_iff in Hd as [Hd _]. apply andb_true_iff in Hd as [_ Hd]. exact Hd.
+Qed.
+Print Assumptions C01_metadata_frontmatter.
+
+(* the full statement: a denotation [den] defined on every well-formed document (mode switches) in place of
+   [denote], whose class is [adoc_ok]; with and without front matter *)
+Definition C01_full_statement (den : (str -> str) -> (str -> option (str * str)) -> (str -> N) -> Analysis.aext ->
+                                     list block -> Analysis.recipe) : Prop :=
+  (forall ci find_iq unit_class x d, adoc_ok ci find_iq unit_class x d = true ->
+     den ci find_iq unit_class x d = denote ci find_iq (Analysis.x_inline x) d) /\
+  (forall (U : N -> ucls) (cfg : pcfg) ci yaml_ok find_iq unit_class (x : Analysis.aext) (d : list block) (tp : dtape),
+    doc_ok U cfg d tp = true ->
+    ParseTotal.parse_model U cfg ci yaml_ok find_iq unit_class x (print_doc d tp)
+    = Done (Some (den ci find_iq unit_class x d), true)) /\
+  (forall (U : N -> ucls) (cfg : pcfg) ci yaml_ok find_iq unit_class (x : Analysis.aext) y ft (d : list block) (tp : dtape),
+    fm_doc_ok U cfg y ft d tp = true ->
+    ParseTotal.parse_model U cfg ci yaml_ok find_iq unit_class x (print_fm_doc y ft d tp)
+    = Done (Some (den ci find_iq unit_class x d), yaml_ok y)).
+
+(* The metadata map (Model/MetaMap.v: the collector projected on content.metadata.map; serde_yaml values are
+   an oracle type Y with [ystr] = Value::String and the key equality [yeqb]): for a printed document whose
+   `>>` keys are not `[..]` config keys while MODES is on, it is the entries (cleaned key, trimmed value)
+   inserted in document order - a repeated key keeps its place and takes the last value. *)
+Theorem C01_metadata_roundtrip :
+  forall (U : N -> ucls) (cfg : pcfg) (Y : Type) (ystr : str -> Y) (yeqb : Y -> Y -> bool)
+         (yaml : str -> option (list (Y * Y))) (modes : bool) (d : list block) (tp : dtape),
+    doc_ok U cfg d tp = true -> meta_plain modes d = true ->
+    exists evs, events U cfg (print_doc d tp) = Done evs /\
+      MetaMap.metadata_of Y ystr yeqb yaml modes evs = Some (fold_left (ins Y ystr yeqb) (meta_entries d) []).
+Proof.
+  intros U cfg Y ystr yeqb yaml modes d tp Hd Hm. destruct (events_print_doc U cfg d tp Hd) as (evs & He & Hp).
+  exists evs. split; [exact He|]. exact (metadata_denote Y ystr yeqb yaml modes d evs Hp Hm).
+Qed.
+Print Assumptions C01_metadata_roundtrip.
 
 (* ------------------------------------------------------------------ examples *)
 (* the adjacency exclusions are real (implementation's classes, Gen/CharClass.v): each pair
@@ -365,3 +492,128 @@ Example C01_number_hypotheses_satisfiable :
    num_wf (SMixed [49] [49] [50]) (q_ta tape1) &&
    adjacent_ok Ug (print_num (SDec [] [48; 53]) (q_ta tape1)) && num_wf (SDec [] [48; 53]) (q_ta tape1)) = true.
 Proof. vm_compute. reflexivity. Qed.
+
+(* ---- the document printer: a document with a metadata line, a wrapped and commented step, a section,
+   a step, a two-line `>` block and a last step; leading comment lines, a CRLF line end, empty and
+   comment-only separator lines.  [doc_ok] holds with all extensions; with none it fails (the first step
+   uses modifiers). *)
+Definition cm : ptok := (KLineComment, [45; 45; 120]).
+Definition bcm : ptok := (KBlockComment, [91; 45; 32; 45; 93]).
+Definition crlf : ptok := (KNewline, [13; 10]).
+Definition tx1 : block :=
+  BkText [{| tl_marker := true; tl_ws := [sp]; tl_toks := [wd [110; 111; 116; 101]] |};
+          {| tl_marker := false; tl_ws := []; tl_toks := [wd [103; 111]; sp; wd [111; 110]] |}].
+Definition doc3 : list block :=
+  [BkMeta [sp; wd [107]] [sp; wd [118]]; BkStep step1; BkSection 1 [sp; wd [65]; sp] 2 [sp];
+   BkStep [IText [wd [66]; sp]; IComp c_word; IText [(KDot, [46])]]; tx1; BkStep [IText [wd [67]]]].
+Definition tape3 : dtape :=
+  {| dt_lead := [([sp; bcm], nl); ([cm], nl)];
+     dt_nl := fun n => if Nat.eqb n 1 then crlf else nl;
+     dt_sep := fun n => match n with
+                        | 0 | 1 | 2 => []
+                        | 3 => [([], nl); ([bcm], crlf)]
+                        | 4 => [([cm], nl)]
+                        | _ => [([], nl)]
+                        end%nat;
+     dt_final := true |}.
+Example C01_doc_ok_satisfiable :
+  doc_ok Ug cfg_all doc3 tape3 = true /\ doc_ok Ug cfg_none doc3 tape3 = false /\
+  no_fence_line (print_doc doc3 tape3) = true.
+Proof. vm_compute. repeat split. Qed.
+
+(* ---- the recipe level: `Mix @salt{1%g} and @&salt, then #pot{} ~{5%min}.` / `== A ==` / `Add @?Salt` / `> note`,
+   with a case folding that maps `S` to `s`.  The class conditions hold with every extension of the pass
+   on; the denotation has the reference resolved (entry 1 refers to entry 0, which records the back link),
+   the second step numbered 1 in its section, `Salt` a new definition. *)
+Definition ufold (s : str) : str := map (fun c => if N.eqb c 83 then 115 else c) s.
+Definition x_all : Analysis.aext := {| Analysis.x_modes := true; Analysis.x_inline := true; Analysis.x_advanced := true |}.
+Definition uclass (u : str) : N := if str_eqb u [109; 105; 110] then 1 else 2.
+Definition tape0 : qtape :=
+  {| q_lead := []; q_after_lock := []; q_ta := {| n_gap := []; n_bs := []; n_as := [] |};
+     q_tb := {| n_gap := []; n_bs := []; n_as := [] |}; q_bd := []; q_ad := []; q_trail := [];
+     q_after_pct := []; q_end := []; q_adv := None |}.
+Definition salt : list ptok := [wd [115; 97; 108; 116]].
+Definition c_salt : cspec :=
+  {| cs_kind := CIgr; cs_mods := []; cs_name := salt; cs_alias := None;
+     cs_body := BQty {| qs_val := QNum (SInt [49]); qs_lock := false; qs_unit := Some [wd [103]] |} tape0; cs_note := None |}.
+Definition c_salt_ref : cspec :=
+  {| cs_kind := CIgr; cs_mods := [MC KAnd]; cs_name := salt; cs_alias := None; cs_body := BWord; cs_note := None |}.
+Definition c_Salt_opt : cspec :=
+  {| cs_kind := CIgr; cs_mods := [MC KQuestion]; cs_name := [wd [83; 97; 108; 116]]; cs_alias := None; cs_body := BWord; cs_note := None |}.
+Definition c_tm5 : cspec :=
+  {| cs_kind := CTm; cs_mods := []; cs_name := []; cs_alias := None;
+     cs_body := BQty {| qs_val := QNum (SInt [53]); qs_lock := false; qs_unit := Some [wd [109; 105; 110]] |} tape0; cs_note := None |}.
+Definition doc4 : list block :=
+  [BkStep [IText [wd [77; 105; 120]; sp]; IComp c_salt; IText [sp; wd [97; 110; 100]; sp]; IComp c_salt_ref;
+           IText [(KPunct, [44]); sp; wd [116; 104; 101; 110]; sp]; IComp c_cw; IText [sp]; IComp c_tm5; IText [(KDot, [46])]];
+   BkSection 1 [sp; wd [65]; sp] 2 [];
+   BkStep [IText [wd [65; 100; 100]; sp]; IComp c_Salt_opt];
+   BkText [{| tl_marker := true; tl_ws := [sp]; tl_toks := [wd [110; 111; 116; 101]] |}]].
+Definition tape4 : dtape := {| dt_lead := []; dt_nl := fun _ => nl; dt_sep := fun n => match n with 2%nat => [([], nl)] | _ => [] end; dt_final := true |}.
+Example C01_parse_print_example :
+  doc_ok Ug cfg_all doc4 tape4 = true /\ adoc_ok ufold (fun _ => None) uclass x_all doc4 = true /\
+  map Analysis.c_rel (Analysis.r_ingredients (denote ufold (fun _ => None) true doc4))
+  = [Analysis.RDef [1%nat] true; Analysis.RRef 0 Analysis.TgComponent; Analysis.RDef [] true] /\
+  map Analysis.sec_name (Analysis.r_sections (denote ufold (fun _ => None) true doc4)) = [None; Some [65]] /\
+  ParseTotal.parse_model Ug cfg_all ufold (fun _ => true) (fun _ => None) uclass x_all (print_doc doc4 tape4)
+  = Done (Some (denote ufold (fun _ => None) true doc4), true).
+Proof.
+  assert (H1 : doc_ok Ug cfg_all doc4 tape4 = true) by (vm_compute; reflexivity).
+  assert (H2 : adoc_ok ufold (fun _ => None) uclass x_all doc4 = true) by (vm_compute; reflexivity).
+  split; [exact H1|]. split; [exact H2|]. split; [vm_compute; reflexivity|]. split; [vm_compute; reflexivity|].
+  exact (C01_parse_print_partial Ug cfg_all ufold (fun _ => true) (fun _ => None) uclass x_all doc4 tape4 H1 H2).
+Qed.
+
+(* ---- front matter: `---`, `title: x`, `--- ` and the document doc4 *)
+Definition yaml1 : str := [116; 105; 116; 108; 101; 58; 32; 120; 10].
+Definition ftape1 : fmtape := {| fm_ws1 := []; fm_ws2 := [32] |}.
+Example C01_frontmatter_satisfiable :
+  fm_doc_ok Ug cfg_all yaml1 ftape1 doc4 tape4 = true /\
+  fm_free cfg_all (print_fm_doc yaml1 ftape1 doc4 tape4) = false.
+Proof. vm_compute. split; reflexivity. Qed.
+
+(* ---- intermediate references: `Boil @water.` / `> rest` / `Add @&(~1)stock{} to @&(1)base{}.` / `= B` /
+   `Use @&(=1)part one{} and @&(=~1)it{}.`: the step references point at content position 0 (the first step;
+   position 1 is the text block), the section references at section 0 *)
+Definition mref (r s : bool) (v : str) : mitem :=
+  MRef {| is_rel := r; is_sec := s; is_val := v; is_b1 := []; is_b2 := []; is_b3 := []; is_b4 := [] |}.
+Definition c_inter (r s : bool) (v : str) (name : list ptok) : cspec :=
+  {| cs_kind := CIgr; cs_mods := [mref r s v]; cs_name := name; cs_alias := None; cs_body := BEmpty []; cs_note := None |}.
+Definition c_water : cspec :=
+  {| cs_kind := CIgr; cs_mods := []; cs_name := [wd [119; 97; 116; 101; 114]]; cs_alias := None; cs_body := BWord; cs_note := None |}.
+Definition doc5 : list block :=
+  [BkStep [IText [wd [66; 111; 105; 108]; sp]; IComp c_water; IText [(KDot, [46])]];
+   BkText [{| tl_marker := true; tl_ws := [sp]; tl_toks := [wd [114; 101; 115; 116]] |}];
+   BkStep [IText [wd [65; 100; 100]; sp]; IComp (c_inter true false [49] [wd [115; 116; 111; 99; 107]]);
+           IText [sp; wd [116; 111]; sp]; IComp (c_inter false false [49] [wd [98; 97; 115; 101]]); IText [(KDot, [46])]];
+   BkSection 0 [sp; wd [66]] 0 [];
+   BkStep [IText [wd [85; 115; 101]; sp]; IComp (c_inter false true [49] [wd [112; 97; 114; 116]; sp; wd [111; 110; 101]]);
+           IText [sp; wd [97; 110; 100]; sp]; IComp (c_inter true true [49] [wd [105; 116]]); IText [(KDot, [46])]]].
+(* the text ends right after the last step, without a newline *)
+Definition tape5 : dtape := {| dt_lead := []; dt_nl := fun _ => nl; dt_sep := fun n => match n with 0%nat | 1%nat => [([], nl)] | _ => [] end; dt_final := false |}.
+Example C01_intermediate_example :
+  doc_ok Ug cfg_all doc5 tape5 = true /\ adoc_ok ufold (fun _ => None) uclass x_all doc5 = true /\
+  map Analysis.c_rel (Analysis.r_ingredients (denote ufold (fun _ => None) true doc5))
+  = [Analysis.RDef [] true; Analysis.RRef 0 Analysis.TgStep; Analysis.RRef 0 Analysis.TgStep;
+     Analysis.RRef 0 Analysis.TgSection; Analysis.RRef 0 Analysis.TgSection].
+Proof. vm_compute. repeat split. Qed.
+
+(* ---- inline quantities: a toy converter oracle that takes `!` for a quantity; `Wait a!b` is cut into the
+   text before, inline quantity 0, the text after *)
+Fixpoint cut33 (s : str) : option (str * str) :=
+  match s with
+  | [] => None
+  | c :: r => if N.eqb c 33 then Some ([], r)
+              else match cut33 r with Some (b, a) => Some (c :: b, a) | None => None end
+  end.
+Definition doc6 : list block := [BkStep [IText [wd [87; 97; 105; 116]; sp; wd [97]; (KPunct, [33]); wd [98]]]].
+Definition tape6 : dtape := {| dt_lead := []; dt_nl := fun _ => nl; dt_sep := fun _ => []; dt_final := true |}.
+Example C01_inline_example :
+  doc_ok Ug cfg_all doc6 tape6 = true /\ adoc_ok ufold cut33 uclass x_all doc6 = true /\
+  Analysis.r_sections (denote ufold cut33 true doc6)
+  = [{| Analysis.sec_name := None;
+        Analysis.sec_content := [Analysis.CStep {| Analysis.st_items := [Analysis.IText [87; 97; 105; 116; 32; 97]; Analysis.IInline 0;
+                                                                         Analysis.IText [98]];
+                                                   Analysis.st_number := 1 |}] |}] /\
+  Analysis.r_inline (denote ufold cut33 true doc6) = 1%nat.
+Proof. vm_compute. repeat split. Qed.
